@@ -334,6 +334,28 @@ impl<'a> Gen<'a> {
                 }
             }
         }
+        // a look-alike twin of an output-capable signal: another output of the same width whose
+        // name equals the first one's after some normalisation a careless comparison might apply
+        // (non-alphanumerics to `_`, a `~` / `_` prefix, a trailing `_`, full-width letters)
+        if self.r.chance(40, 1000) {
+            let outs: Vec<usize> = (0..sigs.len()).filter(|&i| sigs[i].is_output()).collect();
+            if !outs.is_empty() {
+                let src = sigs[*self.r.pick(&outs)].clone();
+                let n = &src.name;
+                let twin = match self.r.below(6) {
+                    0 => n.chars().map(|c| if c.is_ascii_alphanumeric() { c } else { '_' }).collect::<String>(),
+                    1 => format!("~{n}"),
+                    2 => format!("_{n}"),
+                    3 => format!("{n}_"),
+                    4 => n.chars().map(|c| if c.is_ascii_uppercase() { char::from_u32(c as u32 - 'A' as u32 + 0xFF21).unwrap() } else { c }).collect::<String>(),
+                    _ => n.replace(['-', '.'], "_"),
+                };
+                let clash = |a: &str, b: &str| a == b || format!("{a}_out") == b || format!("{b}_out") == a;
+                if twin != *n && !twin.is_empty() && !sigs.iter().any(|s| clash(&s.name, &twin)) {
+                    sigs.push(Sig { name: twin, bits: src.bits, kind: SigKind::Out });
+                }
+            }
+        }
         if self.cfg.shuffle_signals {
             self.r.shuffle(&mut sigs);
         }
@@ -1186,6 +1208,7 @@ impl<'a> Gen<'a> {
             sep: self.r.below(4) as u8,
             trailing_comments: *self.r.pick(&[0, 0, 100, 400]),
             salt: self.r.next_u64(),
+            stray_cr: *self.r.pick(&[0, 0, 0, 0, 150]),
         }
     }
 }
